@@ -22,3 +22,29 @@ def check(prog, rep):
     scope_memory(prog, rep)
     forward_bucket(prog, rep)
     ddl_facts(prog, rep)
+
+
+SQ = "aw_datastore/storages/sqlite.py"
+PW = "aw_datastore/storages/peewee.py"
+ME = "aw_datastore/storages/memory.py"
+DS = "aw_datastore/datastore.py"
+VARIANTS = [
+    ("B sqlite replace unscoped (original defect)", SQ, "                     WHERE id = ?\n                       AND bucketrow = (SELECT rowid FROM buckets WHERE id = ?)\"\"\"\n        self.conn.execute(\n            query, [bucket_id, starttime, endtime, datastr, event_id, bucket_id]\n        )", "                     WHERE id = ?\"\"\"\n        self.conn.execute(query, [bucket_id, starttime, endtime, datastr, event_id])", "SCOPE"),
+    ("B sqlite replace_last picks the newest event of any bucket", SQ, "                        SELECT id FROM events\n                        WHERE bucketrow = (SELECT rowid FROM buckets WHERE id = ?)\n                        ORDER BY starttime DESC, id DESC LIMIT 1)\"\"\"\n        self.conn.execute(query, [starttime, endtime, datastr, bucket_id])", "                        SELECT id FROM events\n                        ORDER BY starttime DESC, id DESC LIMIT 1)\"\"\"\n        self.conn.execute(query, [starttime, endtime, datastr])", "SCOPE"),
+    ("B sqlite delete by id only", SQ, "\"WHERE id = ? AND bucketrow = (SELECT b.rowid FROM buckets b WHERE b.id = ?)\"\n        )\n        cursor = self.conn.execute(query, [event_id, bucket_id])", "\"WHERE id = ?\"\n        )\n        cursor = self.conn.execute(query, [event_id])", "SCOPE"),
+    ("B sqlite delete_bucket deletes all events", SQ, "\"DELETE FROM events WHERE bucketrow IN (SELECT rowid FROM buckets WHERE id = ?)\",\n            [bucket_id],", "\"DELETE FROM events WHERE bucketrow IN (SELECT rowid FROM buckets)\",\n            [],", "SCOPE"),
+    ("B sqlite scope placeholder bound to the event id", SQ, "cursor = self.conn.execute(query, [event_id, bucket_id])", "cursor = self.conn.execute(query, [bucket_id, event_id])", "SCOPE"),
+    ("B sqlite get_events without scope", SQ, "            WHERE bucketrow = (SELECT rowid FROM buckets WHERE id = ?)\n            AND endtime >= ? AND starttime <= ?\n            ORDER BY starttime DESC, id DESC LIMIT ?\n        \"\"\"\n        rows = c.execute(query, [bucket_id, starttime_i, endtime_i, limit])", "            WHERE endtime >= ? AND starttime <= ?\n            ORDER BY starttime DESC, id DESC LIMIT ?\n        \"\"\"\n        rows = c.execute(query, [starttime_i, endtime_i, limit])", "SCOPE"),
+    ("B peewee upsert saves a constructed instance (original defect)", PW, "        if event.id is not None:\n            # Upsert: only ever touch an event that belongs to this bucket\n            return self.replace(bucket_id, event.id, event)\n", "", "SCOPE"),
+    ("B peewee _get_event by id only", PW, "                .where(EventModel.id == event_id)\n                .where(EventModel.bucket == self.bucket_keys[bucket_id])\n                .get()", "                .where(EventModel.id == event_id)\n                .get()", "SCOPE"),
+    ("B peewee delete by id only", PW, "            .where(EventModel.id == event_id)\n            .where(EventModel.bucket == self.bucket_keys[bucket_id])\n            .execute()", "            .where(EventModel.id == event_id)\n            .execute()", "SCOPE"),
+    ("B peewee replace moves the row", PW, "        e = self._get_event(bucket_id, event_id)\n        e.timestamp = event.timestamp", "        e = self._get_event(bucket_id, event_id)\n        e.id = event.id or e.id\n        e.timestamp = event.timestamp", "SCOPE"),
+    ("B memory replace searches every bucket", ME, "            event.id = event_id\n            self.db[bucket_id][idx] = event", "            event.id = event_id\n            for b in self.db:\n                if idx < len(self.db[b]) and self.db[b][idx].id == event_id:\n                    self.db[b][idx] = event", "SCOPE"),
+    ("B Bucket.delete addresses another bucket", DS, "return self.ds.storage_strategy.delete(self.bucket_id, event_id)", "return self.ds.storage_strategy.delete(event_id, self.bucket_id)", "FORWARD"),
+    ("B insert_many forwards a constant bucket", "aw_datastore/storages/abstract.py", "            self.insert_one(bucket_id, event)", "            self.insert_one(event.data.get('bucket', bucket_id), event)", "FORWARD"),
+    ("B buckets.id not unique", SQ, "        id TEXT UNIQUE NOT NULL,", "        id TEXT NOT NULL,", "SCHEMA"),
+    ("OK conjunct order", SQ, "            WHERE bucketrow = (SELECT rowid FROM buckets WHERE id = ?) AND id = ?\n            LIMIT 1\n        \"\"\"\n        rows = c.execute(query, [bucket_id, event_id])", "            WHERE id = ? AND bucketrow = (SELECT rowid FROM buckets WHERE id = ?)\n            LIMIT 1\n        \"\"\"\n        rows = c.execute(query, [event_id, bucket_id])", "ok"),
+    ("OK IN sub-select", SQ, "            WHERE bucketrow = (SELECT rowid FROM buckets WHERE id = ?)\n            AND endtime >= ? AND starttime <= ?\n            ORDER BY", "            WHERE bucketrow IN (SELECT rowid FROM buckets WHERE id = ?)\n            AND endtime >= ? AND starttime <= ?\n            ORDER BY", "ok"),
+    ("OK peewee where order", PW, "                .where(EventModel.id == event_id)\n                .where(EventModel.bucket == self.bucket_keys[bucket_id])\n                .get()", "                .where(EventModel.bucket == self.bucket_keys[bucket_id])\n                .where(EventModel.id == event_id)\n                .get()", "ok"),
+    ("OK peewee combined where", PW, "            .where(EventModel.id == event_id)\n            .where(EventModel.bucket == self.bucket_keys[bucket_id])\n            .execute()", "            .where((EventModel.id == event_id) & (EventModel.bucket == self.bucket_keys[bucket_id]))\n            .execute()", "ok"),
+]
